@@ -692,6 +692,7 @@ func runCheck(env *run.Env, c *check) int {
 	// -race build (pure Go kernels so that the detector sees every access): a race report is a C18 violation.
 	// Runs concurrently with the trace validation below; the quick tier races only the first batches.
 	raceBad := map[int]string{}
+	raceHung := false
 	var raceWG sync.WaitGroup
 	if c.race {
 		raceWG.Add(1)
@@ -723,6 +724,10 @@ func runCheck(env *run.Env, c *check) int {
 						rmu.Lock()
 						raceBad[i] = out
 						rmu.Unlock()
+					} else if code == 3 {
+						// the race build hung on a library call: no verdict about races from this batch; the ordinary
+						// executor runs the same programs and its events (and hang policy) decide
+						raceHung = true
 					} else if code != 0 {
 						rmu.Lock()
 						raceBad[i] = "exit " + fmt.Sprint(code) + ": " + out
@@ -910,6 +915,9 @@ func runCheck(env *run.Env, c *check) int {
 	logf("%d programs, %d events validated, %d cells, %d violations, %.1fs", len(progs), events, distinct, violations, time.Since(start).Seconds())
 	if violations > 0 {
 		return 1
+	}
+	if raceHung {
+		die("a library call did not return within the step timeout in the -race build and no violation was found elsewhere")
 	}
 	for _, r := range results {
 		if r.hang {
